@@ -15,6 +15,7 @@ import (
 	"runtime"
 	"runtime/metrics"
 	"sync"
+	"syscall"
 	"testing"
 	"time"
 
@@ -268,7 +269,7 @@ func TestVerifBlob(t *testing.T) {
 	// one worker runs the cases in order; this goroutine watches its progress and the heap.
 	// mu serialises record emission: whoever holds it decides the fate of the current case.
 	var mu sync.Mutex
-	cur, curStart := skip, time.Now() // guarded by mu
+	cur, curStart, curCPU := skip, time.Now(), vfbCPU() // guarded by mu
 	emit := func(rec map[string]any) {
 		b, err := json.Marshal(rec)
 		if err != nil {
@@ -291,7 +292,7 @@ func TestVerifBlob(t *testing.T) {
 		defer close(done)
 		for i := skip; i < len(cases); i++ {
 			mu.Lock()
-			cur, curStart = i, time.Now()
+			cur, curStart, curCPU = i, time.Now(), vfbCPU()
 			mu.Unlock()
 			rec := newRec(i)
 			a0, _ := allocs()
@@ -323,7 +324,9 @@ func TestVerifBlob(t *testing.T) {
 		case <-tick.C:
 			_, live := allocs()
 			mu.Lock()
-			over, late := live > heapLimit, time.Since(curStart) > watchdog
+			// the watchdog counts CPU time of this process (a loop that consumes no gas burns CPU), so that a
+			// machine overloaded by other jobs does not look like a hang; wall time only as a distant backstop
+			over, late := live > heapLimit, vfbCPU()-curCPU > watchdog || time.Since(curStart) > 20*watchdog
 			if over {
 				// make sure it is not garbage from earlier cases
 				mu.Unlock()
@@ -345,6 +348,14 @@ func TestVerifBlob(t *testing.T) {
 			mu.Unlock()
 		}
 	}
+}
+
+func vfbCPU() time.Duration {
+	var ru syscall.Rusage
+	if err := syscall.Getrusage(syscall.RUSAGE_SELF, &ru); err != nil {
+		return 0
+	}
+	return time.Duration(ru.Utime.Nano() + ru.Stime.Nano())
 }
 
 func vfbFillShape(rec map[string]any) {
